@@ -9,7 +9,7 @@ from .. import base, docspec, drivers, explore, normal, report
 from . import common
 
 PROP = "C01"
-KQ = ("NL", "CE", "J", "W0")
+KQ = ("NL", "CE", "J", "W0", "CEG")
 KT = KQ + ("NLI", "W3", "WT", "BL", "CEE", "CO", "CD")
 
 _allow = None
